@@ -115,6 +115,14 @@ class SFunc:
         self.finfo, self.self_val, self.closure, self.static = finfo, self_val, closure, False
 
 
+class SSuper:
+    """super() / super(C, obj): attribute lookup continues after class `after` in its own MRO, bound to `bound`"""
+    __slots__ = ("bound", "after")
+
+    def __init__(self, bound, after):
+        self.bound, self.after = bound, after
+
+
 class SClass:
     __slots__ = ("cinfo",)
 
